@@ -32,7 +32,8 @@ type SubOp struct {
 
 // StreamFault: one failure of the discovery stream machinery.
 type StreamFault struct {
-	Kind  string `json:"kind"`               // create | send | recv
+	Kind  string `json:"kind"`               // create | send | recv | send-stall (the n-th Send takes Stall scheduler steps: a slow peer)
+	Stall int    `json:"stall,omitempty"`
 	After int    `json:"after"`              // create: the n-th creation fails; send: the n-th Send overall fails; recv: steps after the stream came up
 	Abs   int    `json:"abs_step,omitempty"` // enumeration: fire before this global step (recv/send on whatever stream is up)
 	Err   string `json:"err,omitempty"`      // plain | grpc-canceled | ctx-canceled | grpc-unavailable | eof
@@ -129,6 +130,17 @@ func (p c16) Gen(r *simhook.Rand, tier string, idx int) harness.Scenario {
 			sc.Faults = append(sc.Faults, StreamFault{Kind: "create", After: 1}, StreamFault{Kind: "create", After: 2})
 		}
 	}
+	if sc.Class == "random" && r.Chance(1, 4) {
+		// a burst of more than 16 changes while a stream is up and its sender is stuck in a slow Send
+		sc.Class = "burst-while-up"
+		var ops []SubOp
+		for i := 0; i < 17+r.Intn(14); i++ {
+			ops = append(ops, SubOp{Name: 30 + i, Unsub: false})
+		}
+		at := r.Intn(len(sc.Ops) + 1)
+		sc.Ops = append(append(append([]SubOp(nil), sc.Ops[:at]...), ops...), sc.Ops[at:]...)
+		sc.Faults = append(sc.Faults, StreamFault{Kind: "send-stall", After: 1 + r.Intn(3), Stall: 100 + r.Intn(4000)})
+	}
 	for i := 0; i < r.Intn(5); i++ {
 		switch r.Intn(3) {
 		case 0:
@@ -171,6 +183,18 @@ func (s *simStream) Send(sub, unsub []string) error {
 			w.fire("stream-send-fail")
 			s.breakNow(f.err())
 			return s.err
+		}
+		if f.Kind == "send-stall" && !w.fired[i] && w.sends == f.After {
+			// a slow peer: this Send does not return for a while (flow control), everything else goes on
+			w.fired[i] = true
+			w.fire("stream-send-stall")
+			until := w.rt.Step + int64(f.Stall)
+			for w.rt.Step < until && !s.broken {
+				simhook.Yield("harness.stream.Send#stalled")
+			}
+			if s.broken {
+				return s.err
+			}
 		}
 	}
 	s.reqs++
